@@ -976,6 +976,42 @@ func c16(c *Ctx) {
 										continue // the counter test
 									}
 								}
+								// a "cancelled" flag tested by the loop: it becomes true only on the Done() case
+								cv := ifi.Cond
+								if u, isNot := cv.(*ssa.UnOp); isNot && u.Op == token.NOT {
+									cv = u.X
+								}
+								if ph, isPhi := cv.(*ssa.Phi); isPhi && isBoolType(ph.Type()) && doneTo != nil {
+									okFlag, sawTrue := true, false
+									seenPh := map[*ssa.Phi]bool{}
+									var visit func(p *ssa.Phi)
+									visit = func(p *ssa.Phi) {
+										if seenPh[p] {
+											return
+										}
+										seenPh[p] = true
+										for i, e := range p.Edges {
+											pred := p.Block().Preds[i]
+											switch x := e.(type) {
+											case *ssa.Const:
+												if x.Value != nil && x.Value.ExactString() == "true" {
+													sawTrue = true
+													if !(pred == doneTo || doneTo.Dominates(pred)) {
+														okFlag = false
+													}
+												}
+											case *ssa.Phi:
+												visit(x)
+											default:
+												okFlag = false
+											}
+										}
+									}
+									visit(ph)
+									if okFlag && sawTrue {
+										continue
+									}
+								}
 							}
 							okExits = false
 							why = "left from the block at " + w.Pos(firstPos(b))
@@ -1107,7 +1143,40 @@ func c16(c *Ctx) {
 								}
 							}
 						}
-						r.Check(rel+":buffer-released", okDef, in.Pos(), "the buffer taken from metricsBufferSem is returned by a defer registered before any work")
+						if !okDef && to != nil {
+							// explicit clean-up instead of a defer: on every path from the acquiring case to an exit of the
+							// goroutine the buffer is sent back exactly once (a panic in between is not modelled)
+							toBlk := to
+							res := runAutomatonE(g, 0, func(in3 ssa.Instruction) int {
+								if sd, ok := in3.(*ssa.Send); ok && strings.HasSuffix(pathOf(sd.Chan), ".metricsBufferSem") {
+									return 0
+								}
+								return -1
+							}, func(from, tob *ssa.BasicBlock) int {
+								if tob == toBlk {
+									return 1
+								}
+								return -1
+							}, func(st, ev int) int {
+								switch {
+								case ev == 1 && st == 0:
+									return 1 // holding the buffer
+								case ev == 0 && st == 1:
+									return 2 // given back
+								case ev == 0:
+									return 3 // given back without holding it / twice
+								}
+								return st
+							})
+							var m uint32
+							for _, st := range res.ExitStates {
+								m |= st
+							}
+							if m&(1<<1|1<<3) == 0 && m&(1<<2) != 0 {
+								okDef = true
+							}
+						}
+						r.Check(rel+":buffer-released", okDef, in.Pos(), "the buffer taken from metricsBufferSem is returned by a defer registered before any work (or sent back exactly once on every path to the goroutine's end)")
 					}
 				})
 			}
